@@ -12,10 +12,6 @@ package server
 //@ region Follow: server.Server.followc, server.Server.fcupflags, server.Server.faofsz, server.Server.aofconnM
 //@ region Scripts: server.Server.luascripts, server.lScriptMap.*
 
-// Script callbacks (tile38.call / pcall) re-enter the dispatcher through luaTile38Call, which enforces its own gate
-// on the EVAL_CMD global; its effects are therefore not attributed to whoever runs a Lua script (EVAL*, WHEREEVAL).
-//@ func Server.luaTile38Call
-//@   effects-boundary
 
 // ---- the server lock as seen by the current goroutine: 0 not held, 1 shared, 2 exclusive ----
 //@ ghost var lock int
@@ -211,4 +207,64 @@ package server
 //@ func lStatePool.Get
 //@   assumed
 //@   frame-by-effects
-//@   ensures result1 == nil ==> result0 != nil
+//@   ensures result1 == nil ==> result0 != nil && !perCall[result0]
+
+// ---- commands issued by scripts (C18) ---------------------------------------------
+// tile38.call / pcall end in luaTile38Call, which picks the lock discipline from the mode of the running script:
+// EVAL runs under the exclusive lock taken by the dispatcher, EVALRO under the shared lock, EVALNA takes the lock
+// per call. The handlers reached are checked against the lock and the follower/read-only gates (A1..A3), and every
+// successful write is logged before the function returns (pending).
+//@ func Server.commandInScript
+//@   inline-in Server.luaTile38AtomicRW, Server.luaTile38AtomicRO, Server.luaTile38NonAtomic
+//@ ghost macro scriptMsgOK(s, msg) = s != nil && s.config != nil && msg != nil && len(msg.Args) > 0 && (msg._command == "" || msg._command == lower(msg.Args[0]))
+//@ func Server.luaTile38AtomicRW
+//@   lockcheck
+//@   locks-internally
+//@   frame-by-effects
+//@   requires scriptMsgOK(s, msg) && lock == 2 && !pending
+//@   modifies pending, ndispatched, lastDispatched, steps
+//@   ensures [lock-balance] lock == 2
+//@   ensures [logged] !pending
+//@ func Server.luaTile38AtomicRO
+//@   lockcheck
+//@   locks-internally
+//@   frame-by-effects
+//@   requires scriptMsgOK(s, msg) && lock == 1 && !pending
+//@   modifies pending, ndispatched, lastDispatched, steps
+//@   ensures [lock-balance] lock == 1
+//@   ensures [read-only] !pending
+//@ func Server.luaTile38NonAtomic
+//@   lockcheck
+//@   locks-internally
+//@   frame-by-effects
+//@   requires scriptMsgOK(s, msg) && lock == 0 && !pending
+//@   modifies lock, pending, ndispatched, lastDispatched, steps
+//@   ensures [lock-balance] lock == 0
+//@   ensures [logged] !pending
+// Its effects are not attributed to whoever runs a Lua script (EVAL*, WHEREEVAL): it enforces its own gate.
+//@ func Server.luaTile38Call
+//@   effects-boundary
+//@   lockcheck
+//@   frame-by-effects
+//@   requires s != nil && s.config != nil && !pending
+//@   requires [mode-eval] evalcmd == "eval" || evalcmd == "evalsha" ==> lock == 2
+//@   requires [mode-evalro] evalcmd == "evalro" || evalcmd == "evalrosha" ==> lock == 1
+//@   requires [mode-evalna] evalcmd == "evalna" || evalcmd == "evalnasha" ==> lock == 0
+//@   modifies lock, pending, ndispatched, lastDispatched, steps
+//@   ensures [lock-balance] lock == old(lock)
+//@   ensures [logged] !pending
+
+// ---- the interpreter pool: per-call globals do not survive the call (C18) ---------------
+// perCall[L]: the interpreter L currently carries KEYS / ARGV / EVAL_CMD of a script call.
+//@ ghost var perCall map[ref]bool
+//@ func luaSetRawGlobals
+//@   assumed
+//@   modifies perCall
+//@   ensures perCall == store(old(perCall), ls, tbl["EVAL_CMD"] != pkgvar("lua.LNil") || tbl["KEYS"] != pkgvar("lua.LNil") || tbl["ARGV"] != pkgvar("lua.LNil"))
+//@ func lStatePool.Put
+//@   frame-by-effects
+//@   requires [clean-before-pooling] !perCall[L]
+//@ func Server.cmdEvalUnified
+//@   frame-by-effects
+//@   requires s != nil && s.luapool != nil && msg != nil && len(msg.Args) > 0 && (msg._command == "" || msg._command == lower(msg.Args[0]))
+//@   modifies perCall, pending, lock, ndispatched, lastDispatched, steps
